@@ -30,14 +30,14 @@ import (
 // survivors / not_applicable). A surviving mutant is listed, not a violation.
 
 type mutant struct {
-	ID         string `json:"id"`
-	Property   string `json:"property"`
-	Type       string `json:"type"` // "regex" or "patch"
-	File       string `json:"file,omitempty"`
-	Find       string `json:"find,omitempty"`
-	Replace    string `json:"replace,omitempty"`
-	Patch      string `json:"patch,omitempty"` // path relative to /verif
-	Edits      []struct {
+	ID       string `json:"id"`
+	Property string `json:"property"`
+	Type     string `json:"type"` // "regex" or "patch"
+	File     string `json:"file,omitempty"`
+	Find     string `json:"find,omitempty"`
+	Replace  string `json:"replace,omitempty"`
+	Patch    string `json:"patch,omitempty"` // path relative to /verif
+	Edits    []struct {
 		File    string `json:"file"`
 		Find    string `json:"find"`
 		Replace string `json:"replace"`
